@@ -768,6 +768,17 @@ def check_means(ctx, cls, info, reward):
     fn, params, paths, fns = info
     qual = "%s.receive_reward" % cls.name
     seen = set()
+    # a running mean (S*n + r)/(n+1) is the mean of the rewards only if it starts from a FINITE value with weight n = 0 (0*S must be
+    # 0): every new slot of a score list is opened with the constant 0
+    for m, f2 in cls.methods.items():
+        for x in ast.walk(f2):
+            if isinstance(x, ast.Call) and isinstance(x.func, ast.Attribute) and x.func.attr in ("append", "insert") and is_self_attr(x.func.value) and \
+                    x.func.value.attr in ("V_reward",) and x.args:
+                v = x.args[-1]
+                ok0 = isinstance(v, ast.Constant) and isinstance(v.value, (int, float)) and not isinstance(v.value, bool) and v.value == 0
+                ctx.ob("R04-MEAN", ok0, cls.file, "%s.%s" % (cls.name, m), norm_src(x), "a new score slot starts at 0" if ok0 else
+                       "a new score slot starts at '%s': with weight 0 the running mean multiplies it by 0 (inf*0 = nan) or keeps a part of it, "
+                       "so the score is not the mean of the rewards received" % norm_src(v), x.lineno)
     for p in paths:
         for e in p.events:
             if e[0] != "mean" or not is_credit(e, reward):
